@@ -89,6 +89,10 @@ def make_jobs(ctx):
                      flags=["--unwind", "24", "--unwinding-assertions"], native_src=["stringbuilder.c", "opcode.c", "instruction.c", "valuetype.c", "sha1.c", "export.c", "debug.c", "section.c", "c.c", "reader.c", "compat.c"],
                      bounded="<= 3 functions in the module and <= 3 in the reference module, digests symbolic",
                      info=dict(layer="M")))
+    jobs.append(ejob(ctx, "E.debug_names", "c09_debugnames.c", "h_debug_names", ["c.c:wasmCWriteFunctionDeclarations", "c.c:wasmCWriteFileFunctionSignature"],
+                     flags=["--unwind", "40", "--unwinding-assertions"], native_src=["stringbuilder.c", "array.c", "opcode.c", "instruction.c", "valuetype.c", "sha1.c", "export.c", "debug.c", "section.c"],
+                     bounded="one function, debug name of 1..3 bytes, every byte value (the writer treats the name byte by byte)",
+                     info=dict(layer="E", note="stdio recorder with a state machine for the __asm__ label")))
     j = Job("B.files_and_threads", src=None, solver="static", funcs=["w2c2 binary: -f / -t"], bounded="one module of 28 functions, -f in {1,2,3,n+1} x -t in {1,2,4,8} x 2 runs (quick: subset)",
             info=dict(layer="bounded corroboration on the real binary"))
     j.static_fn = files_fact
